@@ -16,6 +16,21 @@ def norm_ty(t):
     return t
 
 
+def generic_args_first(ty):
+    m = re.match(r'^[A-Za-z_:]+<(.*)>$', ty.strip(), re.S)
+    if not m:
+        return ty
+    d = 0
+    for i, ch in enumerate(m.group(1)):
+        if ch in '<([':
+            d += 1
+        elif ch in '>)]':
+            d -= 1
+        elif ch == ',' and d == 0:
+            return m.group(1)[:i]
+    return m.group(1)
+
+
 class MirDB:
     def __init__(self, srcinfo):
         self.si = srcinfo
@@ -164,6 +179,15 @@ class MirDB:
                                 self_pred=lambda s: norm_ty(strip_generics(s)) == norm_ty(strip_generics(selfty)) or last_seg(s) == last_seg(selfty))
             if r is None:
                 r = self._find_macro_impl(meth, tl, last_seg(selfty))
+            if r is None and tl in ('From', 'TryFrom') and meth in ('from', 'try_from'):
+                # several `impl From<T> for X` (often macro-generated): the one whose parameter type is T
+                fm = re.match(r'^<(.*) as (?:[A-Za-z_:]*)(?:Try)?From<(.*)>>::(?:try_)?from$', callee.strip(), re.S)
+                if fm:
+                    dst, src = norm_ty(fm.group(1)), norm_ty(fm.group(2))
+                    cands = [f for f in self.by_method.get(meth, []) if len(f.params) == 1 and norm_ty(f.params[0][1]) == src and
+                             (last_seg(f.ret) == last_seg(dst) or norm_ty(f.ret).startswith('Result<' + last_seg(dst)) or last_seg(generic_args_first(f.ret)) == last_seg(dst))]
+                    if len(cands) == 1:
+                        r = cands[0]
             return r
         parts = c.split('::')
         if len(parts) >= 2:
